@@ -318,8 +318,10 @@ def deserializeBestChainState (ser : List UInt8) : Outcome BestState :=
   match slice ser 0 32, slice ser 32 36, slice ser 36 44, slice ser 44 48, slice ser 48 ser.length with
   | some h, some ht, some tt, some wl, some rest =>
     let wlen := leVal wl
-    if rest.length % 2 ^ 32 < wlen then .err else
-    match slice ser 48 ((48 + wlen) % 2 ^ 32) with
+    -- after the fix (F-C15-d): compared in uint64, sliced relative to the offset
+    -- (`serializedData[offset:][:workSumBytesLen]`); before, both were uint32 and wrapped at 4 GiB
+    if rest.length < wlen then .err else
+    match slice rest 0 wlen with
     | none => .panic
     | some ws => .ok ⟨h, leVal ht, leVal tt, beVal ws⟩
   | _, _, _, _, _ => .panic
